@@ -18,7 +18,7 @@ from vlib import (BuildError, HARNESS, TARGET, VERIF, WORK, OFFLINE_ENV, _run_bu
 ID = 'C01'
 LEVEL = 'exploration'
 HANG_IS_VIOLATION = True
-RULE = ('hostile inputs of 7 families (dense random grids, mutated bundled diagrams, crossovers of two diagrams, arbitrary unicode scalars, '
+RULE = ('hostile inputs of 9 families (dense random grids, mutated bundled diagrams, crossovers of two diagrams, arbitrary unicode scalars, multi-byte drawings with mixed line endings and legend headers, deep nesting, '
         'quote/brace/legend grammar soup, structural stress for the recursive merges, a size ladder) x the five entry '
         'points x include_* switches x extreme finite scales and override sizes; non-trivial = distinct (input, entry, '
         'settings) whose output contains at least one drawing element')
@@ -258,6 +258,25 @@ def fam_stress(rng, big):
     return body + '\n'
 
 
+def fam_legend_mix(rng):
+    """multi-byte drawings with every line-ending convention, followed (or interrupted) by legend headers:
+    byte offsets, char offsets and line offsets all differ"""
+    alpha = gen.UNI_DRAW + '日本é✓' + "-|+. '"
+    rows = [''.join(rng.choice(alpha) for _ in range(rng.randint(0, 12))) for _ in range(rng.randint(0, 12))]
+    nl = rng.choice(['\r\n', '\r\n', '\n', '\r', None])
+    def join(lines):
+        if nl is None:
+            return ''.join(l + rng.choice(['\r\n', '\n', '\r']) for l in lines)
+        return ''.join(l + nl for l in lines)
+    head = rng.choice(['# Legend:', '# Legend:', ' # Legend:', 'x # Legend:', '# Legend: ', '#Legend:', '# Legend:# Legend:', '日# Legend:'])
+    entries = [rng.choice(['a = {fill:red}', 'é = {x}', 'a = {日本}', 'b={stroke:blue;\n x:y}', 'broken {', '', 'a = {x} trailing', 'c = {é}'])
+               for _ in range(rng.randint(0, 4))]
+    doc = join(rows) + join([head] + entries)
+    if rng.random() < 0.3:
+        doc += join(rows[:3]) + join(['# Legend:'] + entries[:2])
+    return doc
+
+
 def fam_nesting(rng):
     """deep nesting / long runs of the bracket-like characters of the two grammars, in every channel"""
     m = rng.choice([1000, 10000, 100000, 300000])
@@ -302,6 +321,8 @@ def run_shard(ctx, shard):
             inp = fam_ladder(rng, shard['size'])
         elif fam == 'nesting':
             inp = fam_nesting(rng)
+        elif fam == 'legend_mix':
+            inp = fam_legend_mix(rng)
         else:
             raise ValueError(fam)
         kw = settings_for(rng) if fam not in ('ladder', 'nesting') else {'entry': rng.choice([0, 2, 3])}
@@ -436,7 +457,7 @@ def execute(run):
     extra = {'circles': info['circles']}
     shards = []
     if run.tier == 'quick':
-        plan = [('dense', 16, 1500), ('mutated', 16, 1200), ('crossover', 16, 800), ('unicode', 16, 2200), ('grammar', 16, 2200), ('stress', 16, 12)]
+        plan = [('dense', 16, 1500), ('mutated', 16, 1200), ('crossover', 16, 800), ('unicode', 16, 2200), ('grammar', 16, 2200), ('legend_mix', 16, 1500), ('stress', 16, 12)]
         for fam, k, n in plan:
             for i in range(k):
                 shards.append({'name': '%s-%d' % (fam, i), 'family': fam, 'n': n, 'corners': fam == 'grammar' and i == 0})
@@ -444,7 +465,7 @@ def execute(run):
         shards += [{'name': 'ladder-%d' % s, 'family': 'ladder', 'n': 1, 'size': s} for s in (1024, 2048, 4096)]
         shards += [{'name': 'nesting-%d' % i, 'family': 'nesting', 'n': 8} for i in range(4)]
     else:
-        plan = [('dense', 64, 9000), ('mutated', 64, 8000), ('crossover', 64, 5000), ('unicode', 64, 14000), ('grammar', 64, 14000), ('stress', 32, 40)]
+        plan = [('dense', 64, 9000), ('mutated', 64, 8000), ('crossover', 64, 5000), ('unicode', 64, 14000), ('grammar', 64, 14000), ('legend_mix', 64, 9000), ('stress', 32, 40)]
         for fam, k, n in plan:
             for i in range(k):
                 shards.append({'name': '%s-%d' % (fam, i), 'family': fam, 'n': n, 'corners': fam == 'grammar' and i == 0})
